@@ -68,6 +68,16 @@ class Gen:
                 else:
                     self.emit(ind, f'{nb} = "memref.cast"({x}) : ({T}) -> {T}')
                 self.root[nb] = self.root.get(x, x)
+                if self.rng.random() < 0.4:
+                    # a view of the view (cast of a subview, subview of a cast): only the deeper one is used from here on
+                    self.n += 1
+                    nb2 = f"%v{self.n}"
+                    if self.rng.random() < 0.5:
+                        self.emit(ind, f"{nb2} = memref.subview {nb}[0] [16] [1] : {T} to {T}")
+                    else:
+                        self.emit(ind, f'{nb2} = "memref.cast"({nb}) : ({T}) -> {T}')
+                    self.root[nb2] = self.root[nb]
+                    nb = nb2
                 if self.views == "replace":
                     self.bufs = [nb if b == x else b for b in self.bufs]     # ... through the new name only
                 else:
@@ -156,6 +166,26 @@ def run(pid: str, tier: str, seed: int, selftest=False, replay=None) -> int:
         used = lambda a: any((a + t) in body for t in (" ", ",", ")", "\n"))
         argdom = [[900001], [900002], [900003], [0, 1, 2, 3] if used("%n") else [1], [0, 1] if used("%p") else [0]]
         sources.append((f"gen:{seed}:{k}", text, argdom))
+    # systematic: a producer and a consumer of one buffer, each reaching it through the buffer itself, a view or a view of a view (taken in
+    # front of both), every combination of names, operation classes and view kinds
+    def gen_op(kind, src, dst, tag):
+        if kind == "copy":
+            return [f'    "memref.copy"({src}, {dst}) {{tag = {tag} : i32}} : ({T}, {T}) -> ()']
+        return [f'    linalg.generic {{indexing_maps = [{ID}, {ID}, {ID}], iterator_types = ["parallel"]}} ins({src}, {src} : {T}, {T}) outs({dst} : {T}) attrs = {{tag = {tag} : i32}} {{',
+                "    ^bb0(%x : i32, %y : i32, %z : i32):", "      %m = arith.muli %x, %y : i32", "      linalg.yield %m : i32", "    }"]
+    for v1k in ("subview", "cast"):
+        for v2k in ("subview", "cast"):
+            def view(kind, new, old):
+                return (f"    {new} = memref.subview {old}[0] [16] [1] : {T} to {T}" if kind == "subview" else f'    {new} = "memref.cast"({old}) : ({T}) -> {T}')
+            pre = [view(v1k, "%v1", "%a"), view(v2k, "%v2", "%v1"), view(v1k, "%w1", "%a")]
+            for k1 in ("copy", "generic"):
+                for k2 in ("copy", "generic"):
+                    for x in ("%a", "%v1", "%v2"):
+                        for y in ("%a", "%v1", "%v2", "%w1"):
+                            lines = pre + gen_op(k1, "%b", x, 1) + gen_op(k2, y, "%c", 2)
+                            text = ("builtin.module {\n  func.func public @f(%a : " + T + ", %b : " + T + ", %c : " + T + ", %n : index, %p : i1) {\n"
+                                    + "\n".join(lines) + "\n    func.return\n  }\n}\n")
+                            sources.append((f"views:{v1k}-{v2k}:{k1}>{x}:{k2}<{y}", text, [[900001], [900002], [900003], [1], [0]]))
     # exhaustive small scope (spec/SeqGen.tla): every sequence of <= 3 (thorough: 4) copies / compute ops / readers / barriers over three
     # buffers, straight-line or as loops over loop-local buffers (the input class outside the known findings)
     from gen_seq import render_ops, tlc_sequences
